@@ -97,6 +97,13 @@ Theorem C02_qualifies_spec : forall is_space s, qualifies is_space s = true <->
 Proof. exact qualifies_spec. Qed.
 Print Assumptions C02_qualifies_spec.
 
+(** ... and it is the fixed, documented rule [qual_spec] by which the implementation's answers are
+    judged in the correspondence check *)
+Theorem C02_qualifies_is_documented_rule : forall is_space s,
+  qualifies is_space s = qual_spec is_space s.
+Proof. exact qualifies_is_spec. Qed.
+Print Assumptions C02_qualifies_is_documented_rule.
+
 (** the runtime monitor [spec_hs] that the correspondence check evaluates on the
     implementation's observed effects is a theorem of the model: on the observable part of the
     model's own effects it is always true *)
@@ -118,7 +125,7 @@ Definition ex_sp := tbl_space [].
 (** first issuance: unknown name, decision function says yes *)
 Example C02_ex_first_issuance :
   let w := World (Some (PDecision (fun _ _ => true))) 0 [] [] 0 1 in
-  handshake ex_sp w (Hello (Some ex_name) None true) =
+  handshake ex_sp w (Hello (Some ex_name) None true false) =
     ([EDecision ex_name true; ELoad ex_name; ELoad (wild ex_name); EExists ex_name; EIssue ex_name; ELoad ex_name],
      [], RCert 1, World (w_od w) 0 [Cert 1 [ex_name] true false false false false None]
                         [(ex_name, Cert 1 [ex_name] true false false false false None)] 1 2).
@@ -128,14 +135,25 @@ Proof. vm_compute. reflexivity. Qed.
 Example C02_ex_storage_missing_denied :
   let c := Cert 1 [ex_name] true true false false false None in
   let w := World (Some (PDecision (fun _ _ => false))) 0 [c] [] 0 2 in
-  handshake ex_sp w (Hello (Some ex_name) (Some 1) true) =
+  handshake ex_sp w (Hello (Some ex_name) (Some 1) true false) =
     ([EExists ex_name; EDecision ex_name false; EEvict 1], [], RCert 1, World (w_od w) 0 [] [] 1 2).
 Proof. vm_compute. reflexivity. Qed.
 (** renewal in the background: its own goroutine evaluates the policy before the Issue *)
 Example C02_ex_background_renewal :
   let c := Cert 1 [ex_name] true true false false false None in
   let w := World (Some (PAllow [ex_name])) 0 [c] [(ex_name, c)] 0 2 in
-  let '(own, kids, res, _) := handshake ex_sp w (Hello (Some ex_name) (Some 1) true) in
+  let '(own, kids, res, _) := handshake ex_sp w (Hello (Some ex_name) (Some 1) true false) in
   (own, kids, res) =
     ([EExists ex_name], [[EAllow ex_name true; ELoad ex_name; EIssue ex_name; ELoad ex_name]], RCert 1).
+Proof. vm_compute. reflexivity. Qed.
+
+(** on-demand off, cache almost full, the bundle vanishes between the load and the maintenance
+    check (second witness of the fixed finding): the storage-missing branch is gated with
+    requireOnDemand = true, so nothing is issued *)
+Example C02_ex_vanish_od_off :
+  let c := Cert 1 [ex_name] true true false false false None in
+  let fill := map (fun i => Cert i [[120]] false false false false false None) [2;3;4;5;6;7;8;9;10] in
+  let w := World None 10 fill [(ex_name, c)] 0 11 in
+  let '(own, kids, res, _) := handshake ex_sp w (Hello (Some ex_name) None true true) in
+  (own, kids, res) = ([ELoad ex_name; EExists ex_name; EEvict 1], [], REmpty).
 Proof. vm_compute. reflexivity. Qed.
